@@ -55,6 +55,7 @@ fn main() {
             &args[6],
             &args[7],
         ),
+        "gen" if args.len() >= 5 => gen_main(find(&args[2]), tier(&args[3]), args[4].parse().unwrap()),
         "one" if args.len() >= 5 => one_main(find(&args[2]), &args[3], &args[4]),
         "probe-walk" if args.len() >= 3 => props::train_run::probe_walk_main(&args[2]),
         _ => usage(),
